@@ -103,3 +103,132 @@ Proof. repeat split; vm_compute; reflexivity. Qed.
 Example C38_unbalanced_parenthesis_quirk :
   parse_model str idv true (l "a(b") = inr [(0, NNext (l "a")); (1, NNext (l "b"))].
 Proof. vm_compute. reflexivity. Qed.
+
+(* ==== strengthening after the theorem audit ========================================= *)
+From Coq Require Import ZArith PrimFloat.
+From RxVerif Require Import Ops.MarblesCover Ops.MarbleNumbers Ops.MarbleNumbersFacts.
+
+(* ---- the lexer never runs out of fuel ------------------------------------------------ *)
+(* [lex s] runs [lex_aux] with fuel = length s; any larger fuel gives the same
+   tokens, so no theorem above holds because a long string was silently truncated *)
+Theorem C38_lexer_fuel_adequate :
+  forall (s : str) (k : nat), lex_aux (List.length s + k) s = lex s.
+Proof. exact lex_fuel. Qed.
+Print Assumptions C38_lexer_fuel_adequate.
+
+(* hence [lex] satisfies, without fuel, the equation of re.findall on
+   (\(.*?\))|(-+)|(,)|(#|\||[^-,()#\|]+) : alternatives in order at every position,
+   an unmatched parenthesis is skipped *)
+Theorem C38_lexer_equation :
+  lex [] = [] /\
+  forall c r, lex (c :: r) =
+    if ch_eqb c "(" then
+      match find_close r with
+      | Some (content, rest) => TGroup content :: lex rest
+      | None => lex r
+      end
+    else if ch_eqb c "-" then
+      let (t, rest) := span is_dash r in TTicks (S (List.length t)) :: lex rest
+    else if ch_eqb c "," then TComma :: lex r
+    else if ch_eqb c "#" then TElem [c] :: lex r
+    else if ch_eqb c "|" then TElem [c] :: lex r
+    else if ch_eqb c ")" then lex r
+    else let (t, rest) := span elem_char r in TElem (c :: t) :: lex rest.
+Proof. exact (conj lex_nil lex_cons). Qed.
+Print Assumptions C38_lexer_equation.
+
+(* ---- coverage: which strings are diagrams -------------------------------------------- *)
+(* [clean_str]: read directly off the string -- no "," and no ")" outside a group,
+   every "(" closed by a ")" before the end of the line.  Every such string (spaces
+   removed) is the rendering of a well-formed diagram ... *)
+Theorem C38_clean_strings_are_diagrams :
+  forall s : str, clean_str (remove_spaces s) = true ->
+    exists d, wf d = true /\ render d = remove_spaces s.
+Proof. exact cover_string. Qed.
+Print Assumptions C38_clean_strings_are_diagrams.
+
+(* ... the same with "clean" read off the token list: no comma token, and the tokens
+   written back give the string, i.e. the lexer skipped no parenthesis.  (The audit's
+   [clean (lex (remove_spaces s))]; the skipped characters cannot be seen in the token
+   list alone, so [clean] also takes the string.) *)
+Theorem C38_clean_tokens_are_diagrams :
+  forall s : str, clean (remove_spaces s) (lex (remove_spaces s)) = true ->
+    exists d, wf d = true /\ render d = remove_spaces s.
+Proof. exact cover_tokens. Qed.
+Print Assumptions C38_clean_tokens_are_diagrams.
+
+Theorem C38_clean_string_iff_clean_tokens :
+  forall t : str, clean_str t = true <-> clean t (lex t) = true.
+Proof. exact clean_iff_tokens. Qed.
+Print Assumptions C38_clean_string_iff_clean_tokens.
+
+(* exactly: the renderings of well-formed diagrams are the clean strings without spaces *)
+Theorem C38_diagrams_are_exactly_the_clean_strings :
+  forall t : str, (exists d, wf d = true /\ render d = t) <-> (clean_str t = true /\ nospace t = true).
+Proof. exact wf_renderings_are_the_clean_strings. Qed.
+Print Assumptions C38_diagrams_are_exactly_the_clean_strings.
+
+(* so C38_parse_is_diagram_meaning applies to every clean string *)
+Theorem C38_clean_string_parses_to_a_diagram_meaning :
+  forall (V : Type) (valof : str -> V) (rs : bool) (s : str),
+    clean_str (remove_spaces s) = true ->
+    exists d, wf d = true /\ remove_spaces s = render d /\
+      parse_model V valof rs s =
+      if negb rs || stop_ok (elements d) then inr (denote V valof d) else inl ErrStopped.
+Proof. exact parse_clean. Qed.
+Print Assumptions C38_clean_string_parses_to_a_diagram_meaning.
+
+(* a comma outside a group is always a ValueError, and the comma error without raise_stopped *)
+Theorem C38_stray_comma_rejected :
+  forall (V : Type) (valof : str -> V) (rs : bool) (s : str),
+    no_comma (lex (remove_spaces s)) = false ->
+    (exists e, parse_model V valof rs s = inl e) /\ parse_model V valof false s = inl ErrComma.
+Proof. exact parse_comma_rejected. Qed.
+Print Assumptions C38_stray_comma_rejected.
+
+Example C38_clean_examples :
+  clean_str (l "--(12,3,4)--|") = true /\ clean_str (l "a(b") = false /\ clean_str (l "a)b") = false
+  /\ clean_str (l "-a,b") = false /\ clean_str (l "((a)") = true
+  /\ no_comma (lex (l "-a,b")) = false
+  /\ clean (l "a(b") (lex (l "a(b")) = false.
+Proof. repeat split; vm_compute; reflexivity. Qed.
+
+(* ---- values: int() ------------------------------------------------------------------- *)
+(* Only the integer reading is stated here: every statement about try_number / valof /
+   time_of mentions the PrimFloat-typed value model, for which Print Assumptions lists
+   Coq's primitive float / int63 constants instead of "Closed under the global context".
+   Those theorems (valof_spec, valof_first_key, valof_no_key, try_number_render_Z,
+   try_number_string_printable, try_number_foreign_char_printable, time_of_spec,
+   time_of_int_inj, cold_case_times, cold_case_diagram, hot_case_times,
+   cold_case_times_sorted) are proved in Ops/MarbleNumbersFacts.v, which prints their
+   assumptions (kernel primitives only, no axiom). *)
+
+(* int(str(z)) = z for EVERY integer; render_Z is the standard library's decimal
+   printing (optional "-", digits, no leading zero) *)
+Theorem C38_int_elements_read_back :
+  forall z : Z, parse_int (render_Z z) = Some z.
+Proof. exact parse_int_render_Z. Qed.
+Print Assumptions C38_int_elements_read_back.
+
+(* every non-empty string of decimal digits, leading zeros allowed, also behind a sign *)
+Theorem C38_digit_strings_read_as_int :
+  forall d : Decimal.uint, d <> Decimal.Nil ->
+    parse_int (uchars d) = Some (Z.of_uint d)
+    /\ parse_int ("+" :: uchars d) = Some (Z.of_uint d)
+    /\ parse_int ("-" :: uchars d) = Some (- Z.of_uint d)%Z.
+Proof. exact parse_int_uint. Qed.
+Print Assumptions C38_digit_strings_read_as_int.
+
+(* int() accepts nothing with a character outside 0-9 _ + - (numeric_char also has . e E) *)
+Theorem C38_int_needs_numeric_characters :
+  forall (s : str) (z : Z), parse_int s = Some z -> forallb numeric_char s = true.
+Proof. exact parse_int_numeric. Qed.
+Print Assumptions C38_int_needs_numeric_characters.
+
+Example C38_int_examples :
+  render_Z (-1203) = l "-1203" /\ render_Z 0 = l "0"
+  /\ uchars (Decimal.D0 (Decimal.D0 (Decimal.D4 (Decimal.D2 Decimal.Nil)))) = l "0042"
+  /\ parse_int (l "0042") = Some 42%Z /\ parse_int (l "1_000") = Some 1000%Z
+  /\ parse_int (l "1__0") = None /\ parse_int (l "x1") = None
+  /\ forallb numeric_char (l "1x") = false.
+Proof. repeat split; vm_compute; reflexivity. Qed.
